@@ -201,6 +201,41 @@ def check_dense_after_change(acc):
             acc.case(("dense-after", v, how), nontrivial=True, outcome=("dense-after", str(expect_dtype(dense2))), sample=case)
 
 
+def check_mapped_dense(acc):
+    """Dense output read back through a value mapping: the chosen dtype must hold every value that ends up in the array - the mapped listed
+    values, the mapped common value, or whatever the library puts in common cells the mapping does not mention - without wrap-around or error,
+    and when the mapping mentions every value it must be the narrowest dtype that holds the mapped values."""
+    from catii.iindexes import iindex
+
+    commons = [0, 3, 200, 255, 256, 300, 65535, 65536, 70000, 2 ** 32, -1, -129, -40000]
+    targets = [(10, 20), (255, 1), (256, 1), (65536, 7), (-1, 5), (-129, 127), (2 ** 32, 0)]
+    for c in commons:
+        for t1, t2 in targets:
+            for mention_common, ct in ((False, None), (True, 9), (True, 300), (True, -5), (True, 70000)):
+                case = {"mapped_dense": True, "common": c, "targets": [t1, t2], "common_target": ct}
+                idx = iindex({(1,): numpy.array([1], dtype=numpy.uint32), (2,): numpy.array([3], dtype=numpy.uint32)}, c, (5,)) if c not in (1, 2) else None
+                m = {1: t1, 2: t2}
+                if mention_common:
+                    m[c] = ct
+                try:
+                    out = idx.to_array(mapping=dict(m))
+                except Exception as e:  # noqa
+                    acc.violation("to_array:mapped-raised", case, "to_array(mapping=%r) on common %r raised %r" % (m, c, e))
+                    continue
+                got = out.tolist()
+                fills = {got[0], got[2], got[4]}
+                ok_fill = fills == {ct} if mention_common else (len(fills) == 1 and fills <= {0, c})
+                if got[1] != t1 or got[3] != t2 or not ok_fill:
+                    acc.violation("to_array:mapped-values", case, "to_array(mapping=%r) on common %r = %r" % (m, c, got))
+                    continue
+                if mention_common:
+                    vals = [t1, t2, ct]
+                    want = oracle(min(vals + [0]), max(vals + [0]))
+                    if numpy.dtype(out.dtype) != want:
+                        acc.violation("to_array:mapped-dtype", case, "dtype %s for mapped values %r, expected %s" % (out.dtype, vals, want))
+                acc.case(("mapped-dense", c, t1, t2, ct), nontrivial=True, outcome=("mapped-dense", str(out.dtype)), sample=case)
+
+
 # The third caller named in the statement: the INDX coordinate word must hold the largest coordinate AND the common value, and be the narrowest that does.
 INDX_VALUES = [0, 1, 255, 256, 65535, 65536, 2 ** 32 - 1, 2 ** 32, 2 ** 63 - 1]
 
@@ -322,6 +357,7 @@ def run_block(family, p, acc):
         return
     if family == "dense-after-change":
         check_dense_after_change(acc)
+        check_mapped_dense(acc)
         return
     if family == "two":
         for mx in B[p["i0"]:p["i1"]]:
@@ -341,6 +377,12 @@ def replay(case, site=None):
     from ..core import Acc
 
     acc = Acc(ID, [], stop_at_first=False)
+    if case.get("mapped_dense"):
+        check_mapped_dense(acc)
+        hits = [v for v in acc.violations if all(v["case"].get(k) == case.get(k) for k in ("common", "targets", "common_target"))]
+        for v in hits:
+            print("  %s %s :: %s" % (v["site"], v["case"], v["detail"]))
+        return bool(hits)
     if case.get("dense_after_change"):
         check_dense_after_change(acc)
         hits = [v for v in acc.violations if v["case"].get("value") == case.get("value") and v["case"].get("how") == case.get("how")]
